@@ -143,18 +143,22 @@ def post_quad(ip, ctx, out):
         return
     wc = ctx['wc']
     quads = [e for e in ip.log if e[0] == 'quad']
-    want_n = 1 if ctx['ct'] == 'hard' else 2
-    ok = len(quads) == want_n
-    conds = [z3.BoolVal(ok)]
-    if ok:
-        conds += [to_real(quads[0][1]) == 0, to_real(quads[0][2]) == wc]
-        if want_n == 2:
-            conds += [to_real(quads[1][1]) == wc, z3.BoolVal(quads[1][2] is INF)]
-    ip.prove('quad/range', z3.And(conds))
     inf = z3.Real('INFINITY')
-    tot = Cx(uf('Q_re', z3.RealVal(0), wc, sort=RealS), uf('Q_im', z3.RealVal(0), wc, sort=RealS))
-    if want_n == 2:
-        tot = cadd(tot, Cx(uf('Q_re', wc, inf, sort=RealS), uf('Q_im', wc, inf, sort=RealS)))
+
+    def hi(q):
+        return inf if q[2] is INF else to_real(q[2])
+    # the frequency range [0, cutoff] (hard cutoff) resp. [0, infinity) is covered exactly once by consecutive
+    # quadrature intervals (where the range is split is the implementation's business)
+    conds = [z3.BoolVal(len(quads) >= 1)]
+    if quads:
+        conds.append(to_real(quads[0][1]) == 0)
+        for q1, q2 in zip(quads, quads[1:]):
+            conds.append(z3.And(z3.BoolVal(q1[2] is not INF), hi(q1) == to_real(q2[1])))
+        conds.append(hi(quads[-1]) == wc if ctx['ct'] == 'hard' else z3.BoolVal(quads[-1][2] is INF))
+    ip.prove('quad/range', z3.And(conds))
+    tot = Cx(z3.RealVal(0), z3.RealVal(0))
+    for q in quads:
+        tot = cadd(tot, Cx(uf('Q_re', to_real(q[1]), hi(q), sort=RealS), uf('Q_im', to_real(q[1]), hi(q), sort=RealS)))
     sign = -1 if ctx['meth'] == 'eta_function' else 1
     got = out.value
     if ctx['mats']:
